@@ -135,8 +135,11 @@ def _std_floors(model, out_times, sigmas, obs_times, fs, n, d):
     return floors
 
 
-def _judge(case, cfg, sol, obs_times, filt, sigmas, final_scale, how_ended, tags, tol=TOL):
+def _judge(case, cfg, sol, obs_times, filt, sigmas, final_scale, how_ended, tags, tol=None):
     """Compare the returned smoothing solution with the reference. filt/sigmas in the working (unit) scale."""
+    if tol is None:
+        # float64 smoothing at 6-7 Taylor coefficients amplifies rounding by ~1e10 (measured deviations up to 1e-5)
+        tol = TOL if case["nu"] <= 4 else 1e-4
     fact, nu = case["fact"], case["nu"]
     d, n = cfg["d"], nu + 1
     field = cfg["prob"]["field"]
@@ -186,7 +189,7 @@ def _judge(case, cfg, sol, obs_times, filt, sigmas, final_scale, how_ended, tags
             em = TOL * float(np.max(np.abs(means[i] - m) / (TOL * (np.abs(m) + dref) + joint_noise[i] + 1e-300)))
             ec = float(np.max(np.abs(cov[(i, i)] - P) / np.outer(dref, dref)))
             C.obs["max_dev_factorisation_marginal"] = max(C.obs.get("max_dev_factorisation_marginal", 0.0), em, ec)
-            if not (em <= TOL and ec <= TOL):
+            if not (em <= tol and ec <= tol):
                 C.viols.append(util.viol("factorisation_marginal", f"marginalising the returned backward kernels gives a different marginal at index {i} ({em:.3g}/{ec:.3g})", tags=tags))
                 break
         for i in range(T - 1):
@@ -281,7 +284,7 @@ def run_case(case):
                 # two separate runs: in dynamic mode their per-step scale estimates differ by the rounding
                 # sensitivity of tiny residuals (~1e-7 relative), which moves every covariance by that much
                 C2 = _judge(case, cfg_fp, sol_fp, list(grid), filt2, sigmas2, fs2, "at_t1", {**tags, "route": "fi_vs_fp:fixedpoint"},
-                            tol=1e-5 if cal == "dynamic" else TOL)
+                            tol=(1e-5 if cal == "dynamic" else TOL) if nu <= 4 else 1e-4)
                 for v in C2.viols:
                     v["suboracle"] = "fixedpoint_on_stepgrid_" + v["suboracle"]
                 C.viols += C2.viols
@@ -291,7 +294,7 @@ def run_case(case):
                 C.obs["marginals_compared"] += C2.obs.get("marginals_compared", 0)
                 C.obs["cross_covariances_compared"] = C.obs.get("cross_covariances_compared", 0) + C2.obs.get("cross_covariances_compared", 0)
                 sa, sb = np.asarray(sol.output_scale, float)[-1], np.asarray(sol_fp.output_scale, float)[-1]
-                if util.rel_err(sb, sa, floor=1e-300) > (1e-5 if cal == "dynamic" else 1e-8):
+                if util.rel_err(sb, sa, floor=1e-300) > (1e-5 if cal == "dynamic" or nu >= 5 else 1e-7):
                     C.viols.append(util.viol("fixedinterval_vs_fixedpoint_scale", f"output scales differ: {sa} vs {sb}", tags=tags))
                 C.obs["fi_vs_fp_pairs"] = 1
             else:
